@@ -914,12 +914,12 @@ func runC09(c *ev.Ctx) {
 	c.Assume("nested containers may be shared by reference between a result and its source (statement allows it); top-level slots never", "Keys()/Values() order follows Go map iteration: compared as multisets")
 	lsys := &bfs.System[*c09S, c09Op]{Name: "lists", Inits: []func() *c09S{c09Init(cfg.maxLen)}, Ops: c09Ops(cfg), Apply: c09Apply(cfg), Label: c09Label,
 		Check: c09Check, Key: c09Key, MaxDepth: cfg.maxA + cfg.maxB + cfg.maxC,
-		Describe: func(s *c09S) string { return fmt.Sprintf("%s ; natives=%d", s.W.Describe(), len(s.nats)) }, Touch: func(s *c09S) { s.W.Touch() }}
+		Describe: func(s *c09S) string { return fmt.Sprintf("%s ; natives=%d", s.W.Describe(), len(s.nats)) }}
 	res := bfs.Run(c, lsys)
 	c.Set("scenario/lists", map[string]interface{}{"states": res.States, "depth_completed": res.DepthCompleted, "state_space_closed": res.Exhausted})
 	osys := &bfs.System[*c09OS, c09Op]{Name: "objects", Inits: []func() *c09OS{c09OInit}, Ops: c09OOps(ocfg), Apply: c09OApply, Label: c09OLabel,
 		Check: c09OCheck, Key: c09OKey, MaxDepth: ocfg.maxA + ocfg.maxB + ocfg.maxC,
-		Describe: func(s *c09OS) string { return fmt.Sprintf("%s ; natives=%d", s.W.Describe(), len(s.dicts)) }, Touch: func(s *c09OS) { s.W.Touch() }}
+		Describe: func(s *c09OS) string { return fmt.Sprintf("%s ; natives=%d", s.W.Describe(), len(s.dicts)) }}
 	if !c.Expired() {
 		res = bfs.Run(c, osys)
 		c.Set("scenario/objects", map[string]interface{}{"states": res.States, "depth_completed": res.DepthCompleted, "state_space_closed": res.Exhausted})
